@@ -125,7 +125,31 @@ def build_world(live) -> Tuple[World, Interp, Dict[str, Any]]:
                 origin = modname
             methods[d] = q
             info["methods"][f"{cname}.{d}"] = f"{q} ({origin})"
-        world.classes[cname] = ClassInfo(cname, {k: FieldSpec(v) for k, v in fields.items()}, methods)
+        # properties (also functools.cached_property): the getter is evaluated on every read - the value a stateless reading gives; a cache that
+        # goes stale after a mutation is the subject of the native mutation probe of C20
+        props: Dict[str, str] = {}
+        for k in cls.__mro__:
+            if k is object:
+                break
+            for n, v in k.__dict__.items():
+                getter = v.fget if isinstance(v, property) else getattr(v, "func", None) if type(v).__name__ == "cached_property" else None
+                if getter is None or n in props or not inspect.isfunction(getter):
+                    continue
+                if os.path.abspath(getter.__code__.co_filename) == os.path.join(REPO, REL):
+                    q = f"{REL}::{getter.__qualname__}"
+                    if q in world.functions:
+                        world.functions[q].inline = True
+                        props[n] = q
+                        info["methods"][f"{cname}.{n} (property)"] = q
+        # attrs rewrites a cached_property of a slotted class into a slot plus a generated __getattr__: look at the class body in the source too
+        for q, fi_ in world.functions.items():
+            if q.startswith(f"{REL}::{cname}.") and q.count(".") == q[: len(REL)].count(".") + 1 and isinstance(fi_.node, ast.FunctionDef):
+                decos = [ast.unparse(d).split(".")[-1] for d in fi_.node.decorator_list]
+                if any(d in ("property", "cached_property") for d in decos) and fi_.node.name not in props:
+                    fi_.inline = True
+                    props[fi_.node.name] = q
+                    info["methods"][f"{cname}.{fi_.node.name} (property, from the class body)"] = q
+        world.classes[cname] = ClassInfo(cname, {k: FieldSpec(v) for k, v in fields.items()}, methods, properties=props)
         # attribute set of the live class must match the schema the lemmas assume
         have = [a.name for a in live.attrs.fields(cls)] if live.attrs.has(cls) else []
         if have != list(fields):
